@@ -41,7 +41,29 @@ def col_rec(c):
             "cands": [str(x) for x in c.parent_candidates], "key": "%s@%s" % (c, _okey(p)), "oclass": _oclass(p)}
 
 
-def dump(sql, dialect="ansi", metadata=None, silent=False, verbose=False, want_graph=True, provider=None, pre_calls=()):
+def served_exports(sql, dialect, provider):
+    """the exports as the web application serves them: POST /lineage on the real WSGI app"""
+    import io
+    import json as _json
+    import sqllineage.drawing as drawing
+    app = drawing.app
+    saved = getattr(app, "metadata_provider", None)
+    app.metadata_provider = provider
+    try:
+        body = _json.dumps({"e": sql, "dialect": dialect})
+        holder = {}
+        out = app({"REQUEST_METHOD": "POST", "PATH_INFO": "/lineage", "CONTENT_LENGTH": len(body), "wsgi.input": io.StringIO(body)},
+                  lambda status, headers: holder.update(status=status))
+        text = b"".join(x if isinstance(x, bytes) else str(x).encode() for x in out).decode("utf-8")
+        if not holder.get("status", "").startswith("200"):
+            raise RuntimeError("served: " + holder.get("status", "?"))
+        data = _json.loads(text)
+        return data["dag"], data["column"]
+    finally:
+        app.metadata_provider = saved
+
+
+def dump(sql, dialect="ansi", metadata=None, silent=False, verbose=False, want_graph=True, provider=None, pre_calls=(), served=False):
     """metadata: dict 'schema.table' -> [cols] (DummyMetaDataProvider) or None"""
     from sqllineage.core.metadata.dummy import DummyMetaDataProvider
     from sqllineage.core.models import Column, Path, SubQuery, Table
@@ -75,6 +97,10 @@ def dump(sql, dialect="ansi", metadata=None, silent=False, verbose=False, want_g
             out["paths"] = [[col_rec(c) for c in p] for p in paths]
             out["cyto_table"] = lr.to_cytoscape()
             out["cyto_column"] = lr.to_cytoscape(LineageLevel.COLUMN)
+            if served:
+                # what a client of the web application gets for the same text (an equal provider of its own)
+                from sqllineage.core.metadata.dummy import DummyMetaDataProvider as _D
+                out["cyto_table"], out["cyto_column"] = served_exports(sql, dialect, _D(metadata) if metadata is not None else _D())
             out["summary"] = str(lr)
             if want_graph:
                 h = getattr(lr, "_sql_holder", None)
